@@ -35,7 +35,8 @@ def bounds(tier):
 
 
 def configs(tier, seed):
-    out = [{"seed": -1, "shard": 0, "tier": tier, "kind": "veryfar"}]
+    out = [{"seed": -1, "shard": 0, "tier": tier, "kind": "veryfar"},
+           {"seed": -2, "shard": 0, "tier": tier, "kind": "f2rep"}]  # representative of the recorded finding F2
     for si in (range(len(SEEDS)) if tier != "quick" else [4, 3]):  # quick: g(cart)+f(sph); s+d+p
         # shard the group over workers: 6 shards of 8 elements
         for shard in range(6):
@@ -194,6 +195,23 @@ def evaluate(cfg):
     quick = cfg.get("tier") == "quick"
     if cfg.get("kind") == "veryfar":
         return veryfar(o, cfg)
+    if cfg.get("kind") == "f2rep":
+        from ..ref.shells import RefShell
+
+        cs = al.molecule_centers(2, tag="c12-f2")
+        shells = [RefShell(0, cs[0], (1.3,), [[1.0]], "cartesian"),
+                  RefShell(2, cs[1], (0.02, 25.0, 2512.0), [[0.5], [0.4], [0.3]], "cartesian")]
+        env = {"points": np.array([hvec("c12g-pt%d" % i, 3, -1.5, 1.5) for i in range(2)]),
+               "charge_coords": np.array([cs[0]]), "charges": np.array([1.0]), "origin": np.zeros(3), "orders": np.array(ORD2)}
+        iq = integral_quantities(names=["overlap", "kinetic", "eri_chemist"])
+        ex = Explorer(o, iq, {}, tol=1e-10, eri_cap=30)
+        seed = System(shells, None, env)
+        for i in (12, 5):
+            R = rep.signed_permutations()[i]
+            ex.check_edge(seed, move(seed, R, np.zeros(3)), rep.basis_rep(seed.shells, R), "motion #%d" % i, laws(R, np.zeros(3)))
+        o.notes["bfs_states"] = ex.states
+        o.notes["bfs_edges"] = ex.edges
+        return o
     spec = SEEDS[cfg["seed"]]
     cs = al.molecule_centers(len(spec), tag="c12-mol")
     shells = [al.ladder_shell(i, cs[k], t, lmax=4) for k, (i, t) in enumerate(spec)]
